@@ -5,6 +5,7 @@ import (
 	"go/token"
 	"go/types"
 	"regexp/syntax"
+	"strconv"
 	"strings"
 
 	"pdfverif/internal/core"
@@ -733,6 +734,23 @@ func ruleStreamLength(c *core.Ctx) {
 		o.Require(okPat, "endstreamPat %q is not exactly one EOL byte followed by the keyword endstream", pat)
 		// trimTrailingEOL follows
 		tt := callVertices(g, "pdf.trimTrailingEOL")
+		if len(tt) == 0 && c.Prog.FuncOpt("pdf", "trimTrailingEOL") == nil {
+			// the helper was folded into this function: its probe (a ReadAt
+			// into a small local array) must follow the search
+			for _, cs := range callVerticesSuffix(g, ".ReadAt") {
+				if len(cs.Call.Args) == 2 {
+					e := cs.Call.Args[0]
+					if sl, ok := ast.Unparen(e).(*ast.SliceExpr); ok {
+						e = sl.X
+					}
+					if obj := core.ObjOf(info, e); obj != nil {
+						if arr, ok := obj.Type().Underlying().(*types.Array); ok && arr.Len() <= 4 && g.Dominates(find[0].V, cs.V) {
+							tt = append(tt, cs)
+						}
+					}
+				}
+			}
+		}
 		o.Require(len(tt) == 1 && g.Dominates(find[0].V, tt[0].V), "the recovered extent is not passed through trimTrailingEOL")
 	})
 	c.Check(rule, "pdf.(*scanner).ReadStreamData/eol", "the EOL after the stream keyword is LF, CRLF or (leniently) CR and is consumed with the right number of bytes", func(o *core.Ob) {
@@ -945,47 +963,98 @@ func ruleC04Lexical(c *core.Ctx) {
 			}
 		}
 		o.Require(okDef, "no `if w0 == 0 { tp = 1 }` default found")
-		// cases
-		cases := map[int64]*core.V{}
-		for _, v := range g.BranchVertices() {
-			if v.Cond.Tag != nil && core.ObjOf(info, v.Cond.Tag) == tp {
-				if k, ok := core.IntConst(info, v.Cond.Expr); ok {
-					cases[k] = v
+		// which entry types reach which store: the graph is explored for every
+		// value of the type variable, branches on it (switch cases, if chains,
+		// merged case lists) being decided by the value
+		env := byteEnvFor(c.Prog, fn, tp)
+		var starts []*core.V
+		tpDefs := defVertices(g, tp)
+		for _, dv := range tpDefs {
+			for _, e := range dv.Succs {
+				starts = append(starts, e.To)
+			}
+		}
+		isDef := func(v *core.V) bool {
+			for _, dv := range tpDefs {
+				if dv == v {
+					return true
 				}
 			}
+			return false
 		}
-		o.Count(3)
-		for _, k := range []int64{0, 1, 2} {
-			if cases[k] == nil {
-				o.Fail("no case for entry type %d", k)
-			}
-		}
-		// per case the right entry shape: type 0 -> Pos -1; type 1 -> Pos a, Generation b; type 2 -> InStream set
 		m := paramObj(fn, "xref")
-		for _, st := range mapStores(g, m) {
-			var k int64 = -1
-			for kk, cv := range cases {
-				if g.EdgeDominates(st.V, core.EdgeRef{From: cv, Label: core.EdgeTrue}) {
-					k = kk
+		stores := mapStores(g, m)
+		o.Require(len(stores) >= 1, "no store into the table found")
+		handled := map[int64]bool{}
+		o.Count(3)
+		for _, st := range stores {
+			st := st
+			kinds := env.ReachSet(g, starts, func(v *core.V) bool { return v == st.V }, isDef)
+			fields := compositeFields(info, st.Value)
+			for k := 0; k < 256; k++ {
+				if !kinds[k] {
+					continue
+				}
+				if k > 2 {
+					o.FailAt(fn.Site(st.Stmt, ""), "an entry is stored for the unknown entry type %d (ISO 32000-2 7.5.8.3: unknown types are ignored)", k)
+					break
+				}
+				handled[int64(k)] = true
+				o.At(fn.Site(st.Stmt, "entry for type "+strconv.Itoa(k)))
+				// the value of a field for this type: as written, or chosen earlier under this type
+				field := func(name string) string {
+					e := fields[name]
+					if e == nil {
+						return ""
+					}
+					var vals []string
+					for _, vc := range copyCases(g, st.V, e) {
+						if vc.V != st.V {
+							// executed for this type, and still the value at the store
+							under := env.ReachSet(g, starts, func(v *core.V) bool { return v == vc.V }, isDef)
+							others := map[*core.V]bool{}
+							if obj := core.ObjOf(info, e); obj != nil {
+								for _, d := range defVertices(g, obj) {
+									if d != vc.V {
+										others[d] = true
+									}
+								}
+							}
+							var from []*core.V
+							for _, ed := range vc.V.Succs {
+								from = append(from, ed.To)
+							}
+							live := env.ReachSet(g, from, func(v *core.V) bool { return v == st.V }, func(v *core.V) bool { return others[v] || isDef(v) })
+							if !under[k] || !live[k] {
+								continue
+							}
+						}
+						vals = append(vals, core.ExprStr(vc.Expr))
+					}
+					if len(vals) != 1 {
+						return strings.Join(vals, "|")
+					}
+					return vals[0]
+				}
+				switch k {
+				case 0:
+					if field("Pos") != "-1" {
+						o.Fail("free entry is stored with Pos %s, want -1", field("Pos"))
+					}
+				case 1:
+					if field("Pos") != "a" || !strings.Contains(field("Generation"), "b") {
+						o.Fail("in-use entry must take Pos from field 2 and Generation from field 3, got Pos=%s Generation=%s", field("Pos"), field("Generation"))
+					}
+				case 2:
+					if !strings.Contains(field("InStream"), "a") || field("Pos") != "b" {
+						o.Fail("compressed entry must take the stream number from field 2 and the index from field 3")
+					}
 				}
 			}
-			fields := compositeFields(info, st.Value)
-			o.At(fn.Site(st.Stmt, "entry for type "+itoa(int(k))))
-			switch k {
-			case 0:
-				if v, ok := core.IntConst(info, fields["Pos"]); !ok || v != -1 {
-					o.Fail("free entry is stored with Pos %s, want -1", core.ExprStr(fields["Pos"]))
-				}
-			case 1:
-				if fields["Pos"] == nil || core.ExprStr(fields["Pos"]) != "a" || fields["Generation"] == nil || !strings.Contains(core.ExprStr(fields["Generation"]), "b") {
-					o.Fail("in-use entry must take Pos from field 2 and Generation from field 3, got Pos=%s Generation=%s", core.ExprStr(fields["Pos"]), core.ExprStr(fields["Generation"]))
-				}
-			case 2:
-				if fields["InStream"] == nil || !strings.Contains(core.ExprStr(fields["InStream"]), "a") || fields["Pos"] == nil || core.ExprStr(fields["Pos"]) != "b" {
-					o.Fail("compressed entry must take the stream number from field 2 and the index from field 3")
-				}
-			default:
-				o.Fail("store into xref outside the type cases")
+		}
+		for _, k := range []int64{0, 1, 2} {
+			if !handled[k] {
+				o.Fail("no entry is stored for entry type %d", k)
 			}
 		}
 	})
@@ -995,32 +1064,114 @@ func ruleC04Lexical(c *core.Ctx) {
 		info := fn.Info()
 		m := paramObj(fn, "xref")
 		seen := map[int64]bool{}
-		for _, st := range mapStores(g, m) {
-			var k int64 = -1
-			for _, cv := range g.BranchVertices() {
-				if cv.Cond.Tag != nil {
-					if kk, ok := core.IntConst(info, cv.Cond.Expr); ok && g.EdgeDominates(st.V, core.EdgeRef{From: cv, Label: core.EdgeTrue}) {
-						k = kk
+		// the kind byte: byte 17 of the 20-byte entry, directly or through a local
+		var kindVar types.Object
+		isKind := func(e ast.Expr) bool {
+			ix, ok := ast.Unparen(e).(*ast.IndexExpr)
+			if !ok {
+				return false
+			}
+			k, isK := core.IntConst(info, ix.Index)
+			return isK && k == 17
+		}
+		ast.Inspect(fn.Decl.Body, func(n ast.Node) bool {
+			if as, ok := n.(*ast.AssignStmt); ok && len(as.Lhs) == 1 && len(as.Rhs) == 1 && isKind(as.Rhs[0]) {
+				kindVar = core.ObjOf(info, as.Lhs[0])
+			}
+			return true
+		})
+		env := byteEnvFor(c.Prog, fn, kindVar)
+		env.Alias = isKind
+		// start after the last write to the kind byte (the 65536 repair rewrites it)
+		starts := []*core.V{g.Entry}
+		var kindWrites []*core.V
+		for _, v := range g.Vs {
+			if as, ok := v.AST.(*ast.AssignStmt); ok {
+				for _, l := range as.Lhs {
+					if isKind(l) || (kindVar != nil && core.ObjOf(info, l) == kindVar) {
+						kindWrites = append(kindWrites, v)
 					}
 				}
 			}
-			fields := compositeFields(info, st.Value)
-			o.At(fn.Site(st.Stmt, "entry kind "+string(rune(k))))
-			seen[k] = true
-			switch k {
-			case 'f':
-				if v, ok := core.IntConst(info, fields["Pos"]); !ok || v != -1 {
-					o.Fail("free entry stored with Pos %s", core.ExprStr(fields["Pos"]))
+		}
+		if len(kindWrites) > 0 {
+			starts = nil
+			for _, kw := range kindWrites {
+				for _, e := range kw.Succs {
+					starts = append(starts, e.To)
 				}
-			case 'n':
-				if core.ExprStr(fields["Pos"]) != "a" {
-					o.Fail("in-use entry stored with Pos %s, want the parsed offset", core.ExprStr(fields["Pos"]))
-				}
-			default:
-				o.Fail("store into xref outside the 'n'/'f' cases")
 			}
-			if fields["Generation"] == nil || !strings.Contains(core.ExprStr(fields["Generation"]), "b") {
-				o.Fail("entry kind %c does not record the generation", rune(k))
+			// and the paths that never write it
+			for _, e := range g.Entry.Succs {
+				starts = append(starts, e.To)
+			}
+		}
+		isKW := func(v *core.V) bool {
+			for _, kw := range kindWrites {
+				if kw == v {
+					return true
+				}
+			}
+			return false
+		}
+		for _, st := range mapStores(g, m) {
+			st := st
+			kinds := env.ReachSet(g, starts, func(v *core.V) bool { return v == st.V }, isKW)
+			fields := compositeFields(info, st.Value)
+			for k := 0; k < 256; k++ {
+				if !kinds[k] {
+					continue
+				}
+				if k != 'f' && k != 'n' {
+					o.FailAt(fn.Site(st.Stmt, ""), "store into xref outside the 'n'/'f' cases (kind byte %#02x)", k)
+					break
+				}
+				o.At(fn.Site(st.Stmt, "entry kind "+string(rune(k))))
+				seen[int64(k)] = true
+				field := func(name string) string {
+					e := fields[name]
+					if e == nil {
+						return ""
+					}
+					var vals []string
+					for _, vc := range copyCases(g, st.V, e) {
+						if vc.V != st.V {
+							// executed for this type, and still the value at the store
+							under := env.ReachSet(g, starts, func(v *core.V) bool { return v == vc.V }, isKW)
+							others := map[*core.V]bool{}
+							if obj := core.ObjOf(info, e); obj != nil {
+								for _, d := range defVertices(g, obj) {
+									if d != vc.V {
+										others[d] = true
+									}
+								}
+							}
+							var from []*core.V
+							for _, ed := range vc.V.Succs {
+								from = append(from, ed.To)
+							}
+							live := env.ReachSet(g, from, func(v *core.V) bool { return v == st.V }, func(v *core.V) bool { return others[v] || isKW(v) })
+							if !under[k] || !live[k] {
+								continue
+							}
+						}
+						vals = append(vals, core.ExprStr(vc.Expr))
+					}
+					return strings.Join(vals, "|")
+				}
+				switch k {
+				case 'f':
+					if field("Pos") != "-1" {
+						o.Fail("free entry stored with Pos %s", field("Pos"))
+					}
+				case 'n':
+					if field("Pos") != "a" {
+						o.Fail("in-use entry stored with Pos %s, want the parsed offset", field("Pos"))
+					}
+				}
+				if !strings.Contains(field("Generation"), "b") {
+					o.Fail("entry kind %c does not record the generation", rune(k))
+				}
 			}
 		}
 		o.Require(seen['f'] && seen['n'], "both entry kinds must be handled")
@@ -1233,50 +1384,98 @@ func isEndstreamFlag(fn *core.Func, obj types.Object, declared types.Object) boo
 func ruleTrimOneEOL(c *core.Ctx) {
 	const rule = "C04-R8"
 	c.Check(rule, "pdf.trimTrailingEOL", "exactly one end-of-line marker (LF, CR or CR LF) is removed from a recovered stream extent, never other white space and never more than one marker", func(o *core.Ob) {
-		fn := c.Prog.Func("pdf", "trimTrailingEOL")
+		// the trimming code lives in trimTrailingEOL, or, when that helper was
+		// folded into its caller, in ReadStreamData; it is recognised by its
+		// probe: a ReadAt into a local array of at most four bytes
+		fn := c.Prog.FuncOpt("pdf", "trimTrailingEOL")
+		if fn == nil {
+			fn = c.Prog.Func("pdf", "(*scanner).ReadStreamData")
+		}
 		g := fn.Graph()
 		info := fn.Info()
-		length := paramObj(fn, "length")
-		// sites that shorten the extent
-		type dec struct {
-			v *core.V
-			k int64
-		}
-		var decs []dec
-		for _, dv := range defVertices(g, length) {
-			switch s := dv.AST.(type) {
-			case *ast.IncDecStmt:
-				if s.Tok != token.DEC {
-					core.Undecided("the extent is incremented")
-				}
-				decs = append(decs, dec{dv, 1})
-			case *ast.AssignStmt:
-				k, ok := core.IntConst(info, s.Rhs[0])
-				if s.Tok != token.SUB_ASSIGN || !ok || len(s.Rhs) != 1 {
-					core.Undecided("modification of the extent not understood: %s", c.Prog.Src(s))
-				}
-				decs = append(decs, dec{dv, k})
-			default:
-				core.Undecided("modification of the extent not understood")
-			}
-		}
-		if len(decs) == 0 {
-			o.Fail("trimTrailingEOL never shortens the extent")
-			return
-		}
-		// the probe buffer and the number of bytes read
 		var probe types.Object
+		var probeV *core.V
 		for _, cs := range callVerticesSuffix(g, ".ReadAt") {
 			if len(cs.Call.Args) == 2 {
 				e := cs.Call.Args[0]
 				if sl, ok := ast.Unparen(e).(*ast.SliceExpr); ok {
 					e = sl.X
 				}
-				probe = core.ObjOf(info, e)
+				if obj := core.ObjOf(info, e); obj != nil {
+					if arr, ok := obj.Type().Underlying().(*types.Array); ok && arr.Len() <= 4 {
+						probe, probeV = obj, cs.V
+					}
+				}
 			}
 		}
 		if probe == nil {
 			core.Undecided("probe buffer not found")
+		}
+		after := g.ReachFrom(probeV, false, nil)
+		// sites that shorten the extent (after the probe)
+		type dec struct {
+			v *core.V
+			k int64
+		}
+		var decs []dec
+		var length types.Object
+		for _, dv := range g.Vs {
+			if !after[dv] || dv.AST == nil {
+				continue
+			}
+			var lhs ast.Expr
+			var k int64
+			switch s := dv.AST.(type) {
+			case *ast.IncDecStmt:
+				if s.Tok != token.DEC {
+					continue
+				}
+				lhs, k = s.X, 1
+			case *ast.AssignStmt:
+				if s.Tok != token.SUB_ASSIGN || len(s.Rhs) != 1 {
+					continue
+				}
+				kk, ok := core.IntConst(info, s.Rhs[0])
+				if !ok {
+					core.Undecided("modification of the extent not understood: %s", c.Prog.Src(s))
+				}
+				lhs, k = s.Lhs[0], kk
+			default:
+				continue
+			}
+			obj := core.ObjOf(info, lhs)
+			if obj == nil {
+				continue
+			}
+			if length != nil && length != obj {
+				core.Undecided("two different variables are shortened after the probe")
+			}
+			length = obj
+			decs = append(decs, dec{dv, k})
+		}
+		if len(decs) == 0 {
+			o.Fail("the extent is never shortened after the probe")
+			return
+		}
+		for _, dv := range defVertices(g, length) {
+			if !after[dv] {
+				continue
+			}
+			isDec := false
+			for _, d := range decs {
+				if d.v == dv {
+					isDec = true
+				}
+			}
+			if !isDec {
+				if _, isRet := dv.AST.(*ast.ReturnStmt); !isRet {
+					core.Undecided("modification of the extent not understood: %s", c.Prog.Src(dv.AST))
+				}
+			}
+		}
+		var starts []*core.V
+		for _, e := range probeV.Succs {
+			starts = append(starts, e.To)
 		}
 		var isProbeAt func(e ast.Expr, back int64) bool
 		isProbeAt = func(e ast.Expr, back int64) bool {
@@ -1316,7 +1515,7 @@ func ruleTrimOneEOL(c *core.Ctx) {
 			if v, ok := fn.Pkg.Types.Scope().Lookup("class").(*types.Var); ok {
 				last.Tables[v] = c.Prog.ArrayTable("pdf", "class")
 			}
-			set := last.ReachSet(g, []*core.V{g.Entry}, func(x *core.V) bool { return x == d.v }, nil)
+			set := last.ReachSet(g, starts, func(x *core.V) bool { return x == d.v }, nil)
 			if !set.SubsetOf(eol) {
 				o.FailAt(fn.Site(d.v.AST, ""), "%s: the extent is shortened when the last byte is one of %s: only LF and CR end a line", c.Prog.Pos(d.v.AST.Pos()), set.Minus(eol))
 			}
@@ -1327,8 +1526,8 @@ func ruleTrimOneEOL(c *core.Ctx) {
 					total += p.k
 					// second byte: only the CR of CR LF
 					prev := &core.ByteEnv{Info: info, Alias: func(e ast.Expr) bool { return isProbeAt(e, 2) }, Tables: last.Tables}
-					s2 := prev.ReachSet(g, []*core.V{g.Entry}, func(x *core.V) bool { return x == d.v }, nil)
-					lf := last.ReachSet(g, []*core.V{g.Entry}, func(x *core.V) bool { return x == d.v }, nil)
+					s2 := prev.ReachSet(g, starts, func(x *core.V) bool { return x == d.v }, nil)
+					lf := last.ReachSet(g, starts, func(x *core.V) bool { return x == d.v }, nil)
 					if !s2.SubsetOf(core.BytesOf("\r")) || !lf.SubsetOf(core.BytesOf("\n")) {
 						o.FailAt(fn.Site(d.v.AST, ""), "%s: a second byte is removed for last bytes %s / preceding bytes %s: only the pair CR LF is a two-byte marker", c.Prog.Pos(d.v.AST.Pos()), lf, s2.Minus(core.BytesOf("\r")))
 					}
